@@ -1,0 +1,7 @@
+//go:build !verif
+
+package fileutil
+
+// VerifPoint marks a labelled point for the verification harness. Without the
+// "verif" build tag it does nothing.
+func VerifPoint(label, path string) {}
